@@ -130,6 +130,11 @@ MUTANTS["C16"] = [
     ("patch_from_pre-default-no-commit", "annet/api/__init__.py", "def patch_from_pre(pre, hw, rb, add_comments, ref_track=None, do_commit=True):", "def patch_from_pre(pre, hw, rb, add_comments, ref_track=None, do_commit=False):"),
     ("file-diff-not-stripped", "annet/api/__init__.py", "    diff_obj = patching.strip_unchanged(diff_obj)\n    pre = patching.make_pre(diff_obj)\n    return rb, diff_obj, pre, patchtree", "    pre = patching.make_pre(patching.strip_unchanged(diff_obj))\n    return rb, diff_obj, pre, patchtree"),
     ("device-path-no-orderer-refs", "annet/api/__init__.py", "    diff_tree = patching.make_diff(old, new, rb, [acl_rules, filter_acl_rules])\n    pre = patching.make_pre(diff_tree)", "    diff_tree = patching.make_diff(old, new, rb, [acl_rules, filter_acl_rules])\n    pre = patching.make_pre(patching.strip_unchanged(diff_tree))"),
+    ("patch-worker-ignores-acl-safe-configs", "annet/api/__init__.py", "        old = res.get_old(args.acl_safe)\n        new = res.get_new(args.acl_safe)\n        new_json_fragment_files = res.get_new_file_fragments(args.acl_safe)\n\n        device = res.device",
+     "        old = res.get_old(args.acl_safe)\n        new = res.get_new(False)\n        new_json_fragment_files = res.get_new_file_fragments(args.acl_safe)\n\n        device = res.device"),
+    # (taking `old` from the full configuration there is an equivalent mutant: _diff_and_patch applies the safe ACL to old again)
+    ("diff-worker-drops-filter-acl", "annet/diff.py", "                [acl_rules, res.filter_acl_rules],", "                [acl_rules],"),
+    ("diff-worker-diffs-new-against-new", "annet/diff.py", "            diff_tree = patching.make_diff(\n                old,", "            diff_tree = patching.make_diff(\n                new,"),
 ]
 
 MUTANTS["C20"] = [
